@@ -438,19 +438,27 @@ def run_playback(scratch, h, tests_src, logdir):
     return False, "", tests_src, f"{len(names)} playback test(s) passed natively (dev profile)"
 
 
-def native_test(scratch, crate, rel_file, test_name, code, logdir):
+def native_test(scratch, crate, rel_file, test_name, code, logdir, integration=False):
     """mir2smt replay: append a plain #[cfg(test)] module with `code` to `rel_file` of the scratch
-    copy and run it natively (dev profile, real functions).  Returns (failed: bool|None, detail)."""
+    copy (or, with integration=True, write `code` as the integration test file `rel_file`) and run
+    it natively (dev profile, real functions).  Returns (failed: bool|None, detail)."""
     os.makedirs(logdir, exist_ok=True)
     path = os.path.join(scratch.src, rel_file)
-    with open(path, "a") as fh:
-        fh.write("\n#[cfg(test)]\nmod kv_native_replay {\n    #![allow(unused_imports)]\n    use super::*;\n" + code + "\n}\n")
+    if integration:
+        os.makedirs(os.path.dirname(path), exist_ok=True)
+        with open(path, "w") as fh:
+            fh.write(code)
+        target = ["--test", os.path.splitext(os.path.basename(rel_file))[0]]
+    else:
+        with open(path, "a") as fh:
+            fh.write("\n#[cfg(test)]\nmod kv_native_replay_" + re.sub(r"\W", "_", test_name) + " {\n    #![allow(unused_imports)]\n    use super::*;\n" + code + "\n}\n")
+        target = ["--lib"]
     log = os.path.join(logdir, f"native-{test_name}.log")
     env = dict(ENV)
     env.pop("RUSTFLAGS", None)
     with open(log, "w") as fh:
         try:
-            subprocess.run(["cargo", "test", "--offline", "-p", crate, "--lib", "--target-dir", os.path.join(scratch.dir, "target-native"), test_name],
+            subprocess.run(["cargo", "test", "--offline", "-p", crate] + target + ["--target-dir", os.path.join(scratch.dir, "target-native"), test_name],
                            cwd=scratch.src, env=env, stdout=fh, stderr=subprocess.STDOUT, timeout=1800)
         except subprocess.TimeoutExpired:
             return None, "native test timed out"
